@@ -928,6 +928,50 @@ theorem unprefixize_pname (ctx : Ctx) (hctx : ctxOk ctx) (pre loc ns : List Char
     simp only [Option.map_some]
     rw [replaceAll_pname p loc n hloc]
 
+/-- `pre://…` would be a full IRI; a local name that does not start with `//` is not one -/
+theorem not_scheme_prefix (e pre loc : List Char) (he : (e ++ [':']).isPrefixOf (pre ++ ':' :: loc) = (decide (e = pre)))
+    (hloc : ['/', '/'].isPrefixOf loc = false) :
+    ((e ++ [':']).isPrefixOf (pre ++ ':' :: loc) && !(e ++ [':', '/', '/']).isPrefixOf (pre ++ ':' :: loc)) = decide (e = pre) := by
+  rw [he]
+  by_cases h : e = pre
+  · subst h
+    have : (e ++ [':', '/', '/']).isPrefixOf (e ++ ':' :: loc) = false := by
+      induction e with
+      | nil =>
+        cases loc with
+        | nil => rfl
+        | cons a t =>
+          cases t with
+          | nil => simp [List.isPrefixOf] at hloc ⊢
+          | cons b u => simpa [List.isPrefixOf] using hloc
+      | cons c t ih =>
+        simp only [List.cons_append, List.isPrefixOf, BEq.rfl, Bool.true_and]
+        exact ih (by simpa using he) 
+    simp [this]
+  · simp [h]
+
+theorem find_prefix_soft (prefixes : List (List Char × List Char)) (pre loc : List Char)
+    (hctx : ∀ e ∈ prefixes, ∀ c ∈ e.1, c ≠ ':') (hpre : ∀ c ∈ pre, c ≠ ':') (hloc : ['/', '/'].isPrefixOf loc = false) :
+    (prefixes.find? fun (p, _) => (p ++ [':']).isPrefixOf (pre ++ ':' :: loc) && !(p ++ [':', '/', '/']).isPrefixOf (pre ++ ':' :: loc)) =
+      prefixes.find? fun e => e.1 = pre := by
+  induction prefixes with
+  | nil => rfl
+  | cons e es ih =>
+    have h1 := isPrefix_colon e.1 pre loc (hctx e (by simp)) hpre
+    have h2 := not_scheme_prefix e.1 pre loc h1 hloc
+    have ih' := ih (fun x hx => hctx x (by simp [hx]))
+    simp only [List.find?_cons, h2, ih']
+
+theorem unprefixizeSoft_pname (ctx : Ctx) (hctx : ctxOk ctx) (pre loc ns : List Char) (hpre : preOk pre)
+    (hloc : locOk pre loc) (hns : lookup ctx.prefixes pre = some ns) (hsl : ['/', '/'].isPrefixOf loc = false) :
+    unprefixizeSoft ctx.prefixes (pre ++ ':' :: loc) = some (ns ++ loc) := by
+  have h := unprefixize_pname ctx hctx pre loc ns hpre hloc hns
+  unfold unprefixize at h
+  unfold unprefixizeSoft
+  rw [find_prefix ctx.prefixes pre loc hctx (fun c hc => (hpre c hc).1)] at h
+  rw [find_prefix_soft ctx.prefixes pre loc hctx (fun c hc => (hpre c hc).1) hsl]
+  exact h
+
 end Part3
 
 section Part4
@@ -1104,7 +1148,7 @@ theorem expand_abs (ctx : Ctx) (tok d : List Char) (h : afterLastQuote tok = '^'
   simp only [h]
 
 theorem expand_pname (ctx : Ctx) (Q dt e : List Char) (hq : ∀ c ∈ dt, c ≠ '"') (hh : dt.head? ≠ some '<')
-    (hu : unprefixize ctx.prefixes dt = some e) :
+    (hu : unprefixizeSoft ctx.prefixes dt = some e) :
     expandDatatype ctx (Q ++ ['"'] ++ ('^' :: '^' :: dt)) = Q ++ ['"'] ++ ['^', '^', '<'] ++ e ++ ['>'] := by
   have ha : afterLastQuote (Q ++ ['"'] ++ ('^' :: '^' :: dt)) = '^' :: '^' :: dt := by
     apply afterLastQuote_spec
@@ -1337,8 +1381,8 @@ theorem elemOk_lit (hctx : ctxOk ctx) (C : List Item) (sf : LitSuffix) (hv : (El
       · exact dT_dt resolve ctx.base _ iri (by rw [hafter, hs]) (strip_dt iri) hsf.2
       · rfl
     | pname pre loc =>
-      obtain ⟨hpre, hloc, ⟨ns, hns, hnq, hfix⟩, _, hh⟩ := hsf
-      have hu := unprefixize_pname ctx hctx pre loc ns hpre hloc hns
+      obtain ⟨hpre, hloc, ⟨ns, hns, hnq, hfix⟩, _, hh, hsl⟩ := hsf
+      have hu := unprefixizeSoft_pname ctx hctx pre loc ns hpre hloc hns hsl
       have hs : (LitSuffix.dt (.pname pre loc)).chars = '^' :: '^' :: (pre ++ ':' :: loc) := rfl
       have hex := expand_pname ctx ('"' :: C.flatMap Item.chars) (pre ++ ':' :: loc) (ns ++ loc)
         (fun c hc => (hplain c (by rw [hs]; simp only [List.mem_cons]; right; right; exact hc)).2) hh hu
